@@ -337,7 +337,10 @@ func buildSpec(o specOpts) *builtSpec {
 			case 0:
 				br.Target = "n1"
 			case 1:
-				if o.pooled {
+				if o.pooled && o.patMode == 1 {
+					// the variable may be one the branch's own pattern ("?x") or guard ("k") binds
+					tvar = anyName(name+".targetvar", []string{"k", "x", "?x"})
+				} else if o.pooled {
 					tvar = anyName(name+".targetvar", []string{"k", "x"})
 				} else {
 					tvar = verif.AnyString(name + ".targetvar")
